@@ -347,6 +347,36 @@ func tagsOf(out string) (string, bool) {
 	return sb.String(), true
 }
 
+// noDirectiveLeft (C05): "no directive attribute, block tag or hidden comment ever appears in the output" - the output of a
+// successful render is scanned (with a prefix that matches nothing, so that nothing is compiled) and searched for them
+func noDirectiveLeft(cfg tmplCfg, out string) string {
+	toks, err := html.NewHtmlScanner(strings.NewReader(out)).SetAttrPrefix("\x00none\x00").GetAllTokens()
+	if err != nil {
+		return "" // the structure oracle (C02) deals with unscannable output
+	}
+	block := strings.ToLower(cfg.tp + "block")
+	for _, t := range toks {
+		switch {
+		case t.Kind == html.TokenKindTag && t.Tag != nil:
+			name := strings.Trim(strings.ToLower(t.Tag.Name), "/")
+			if name == block {
+				return fmt.Sprintf("the block tag %q appears in the output %q", t.Value, out)
+			}
+			for _, a := range t.Tag.Attrs {
+				if strings.HasPrefix(a.Name, cfg.ap) {
+					return fmt.Sprintf("the directive attribute %q appears in the output tag %q", a.Name, t.Value)
+				}
+			}
+		case t.Kind == html.TokenKindComment:
+			body := strings.TrimSpace(strings.TrimSuffix(strings.TrimPrefix(t.Value, "<!--"), "-->"))
+			if strings.HasPrefix(body, "/*") && strings.HasSuffix(body, "*/") {
+				return fmt.Sprintf("the hidden comment %q appears in the output", t.Value)
+			}
+		}
+	}
+	return ""
+}
+
 // sameModuloOrder: same outcome and output; the calls made may be ordered differently among
 // directives whose relative order is not fixed (and, on failure, fewer of them may have run)
 func sameModuloOrder(a, b runResult) bool {
@@ -581,6 +611,9 @@ func genTmplCase(r *Rng, out *outFiles) {
 			if rs2 != nil && !sameModuloOrder(rs2[0], rs[0]) {
 				c05 = fmt.Sprintf("reordering control attributes changes the result: %s vs %s", rs[0].line(), rs2[0].line())
 			}
+		}
+		if c05 == "" && rs[0].class == "" && runs[0].budget < 0 {
+			c05 = noDirectiveLeft(cfg, rs[0].out)
 		}
 		// C02: structure does not depend on the inserted strings s1/s2 (never used by control directives)
 		if rs[0].class == "" && runs[0].budget < 0 {
